@@ -14,7 +14,8 @@ def Released (s : St) : Prop :=
 instance (s : St) : Decidable (Released s) := by unfold Released; infer_instance
 
 /-- the configuration runs the repaired code: close() with try/finally, and the three repaired facts -/
-def FixedCfg (cfg : Cfg) : Prop := cfg.code = codeFixed cfg.stack ∧ cfg.facts = factsFixed
+def FixedCfg (cfg : Cfg) : Prop :=
+  (cfg.code = codeFixed cfg.stack ∨ cfg.code = codeFixed2 cfg.stack) ∧ cfg.facts = factsFixed ∧ cfg.tcloseRaises = false
 
 /-- statement-wise invariant (every statement of every method preserves it, from any state) -/
 def J (cfg : Cfg) (s : St) : Prop :=
@@ -85,6 +86,8 @@ def Node.stmts : Node → List GS
   | .simple x => [x]
   | .tryFinally b f => b ++ f
   | .tryExceptRaise b h => b ++ h
+  | .tryFinallyN b f1 f2 => b ++ f1 ++ f2
+  | .tryExceptRaiseN b h0 h1 h2 => b ++ h0 ++ h1 ++ h2
 
 def progStmts (p : Prog) : List GS := p.flatMap Node.stmts
 
@@ -124,6 +127,28 @@ theorem execNode_pres (n : Node) (h : ∀ x ∈ n.stmts, ∀ s tape, P s → P (
     by_cases hok : (execList f cfg b s tape).ok = true
     · simp only [hok, if_true]; exact hb
     · simp only [hok]; exact hh
+  | tryFinallyN b f1 f2 =>
+    have hb := execList_pres P f cfg b (fun y hy => h y (by simp [Node.stmts, hy])) s tape hs
+    have h1 := execList_pres P f cfg f1 (fun y hy => h y (by simp [Node.stmts, hy])) _ (execList f cfg b s tape).tape hb
+    have h2 := execList_pres P f cfg f2 (fun y hy => h y (by simp [Node.stmts, hy])) _
+      (execList f cfg f1 (execList f cfg b s tape).st (execList f cfg b s tape).tape).tape h1
+    simpa [execNode, finallyPair] using h2
+  | tryExceptRaiseN b h0 h1 h2 =>
+    have hb := execList_pres P f cfg b (fun y hy => h y (by simp [Node.stmts, hy])) s tape hs
+    have g0 := execList_pres P f cfg h0 (fun y hy => h y (by simp [Node.stmts, hy])) _ (execList f cfg b s tape).tape hb
+    have g1 := execList_pres P f cfg h1 (fun y hy => h y (by simp [Node.stmts, hy])) _
+      (execList f cfg h0 (execList f cfg b s tape).st (execList f cfg b s tape).tape).tape g0
+    have g2 := execList_pres P f cfg h2 (fun y hy => h y (by simp [Node.stmts, hy])) _
+      (execList f cfg h1 (execList f cfg h0 (execList f cfg b s tape).st (execList f cfg b s tape).tape).st
+        (execList f cfg h0 (execList f cfg b s tape).st (execList f cfg b s tape).tape).tape).tape g1
+    unfold execNode
+    by_cases hok : (execList f cfg b s tape).ok = true
+    · simp only [hok, if_true]; exact hb
+    · simp only [hok]
+      by_cases hok0 : (execList f cfg h0 (execList f cfg b s tape).st (execList f cfg b s tape).tape).ok = true
+      · simp only [hok0, Bool.not_true, Bool.false_eq_true, if_false]
+        simpa [finallyPair] using g2
+      · simp only [hok0]; simpa using g0
 
 theorem execProg_pres (p : Prog) (h : ∀ x ∈ progStmts p, ∀ s tape, P s → P (f x.s s tape).st) :
     ∀ s tape, P s → P (execProg f cfg p s tape).st := by
@@ -169,7 +194,9 @@ theorem interact_pres (hp : Tol cfg P) (reads : Bool) (tag : String) (s : St) (t
         split
         · exact hp.dead _ h'
         · split
-          · exact hp.tclose _ h'
+          · by_cases hq : tcloseFails cfg { s with tn := stepTn cfg s.tn e.tn } = true
+            · rw [if_pos hq]; exact h'
+            · rw [if_neg hq]; exact hp.tclose _ h'
           · exact h'
         · exact h'
 
@@ -200,7 +227,11 @@ theorem execStmt0_pres (hp : Tol cfg P) (st : Stmt) (hne : st ≠ .transportOpen
   | logPre c => exact h
   | logPost c => exact h
   | logCritical => exact h
-  | transportClose => exact hp.tclose _ h
+  | transportClose =>
+    unfold execStmt0
+    by_cases hq : tcloseFails cfg s = true
+    · simp only [hq, if_true]; exact h
+    · rw [if_neg hq]; exact hp.tclose _ h
   | channelOpen => exact hp.copen _ h
   | channelClose => exact hp.cclose _ h
   | authSystem => exact interact_pres hp _ _ _ _ h
@@ -416,6 +447,14 @@ theorem quiet0_logPost (c : Bool) : Quiet (execStmt0 cfg) (.logPost c) := fun _ 
 theorem quiet0_logCritical : Quiet (execStmt0 cfg) .logCritical := fun _ _ => ⟨rfl, rfl, rfl⟩
 theorem quiet1_logCritical : Quiet (execStmt1 cfg) .logCritical := fun _ _ => ⟨rfl, rfl, rfl⟩
 
+theorem tclose_stmt0 (ht : cfg.tcloseRaises = false) (s : St) (tape : List Ev) :
+    execStmt0 cfg .transportClose s tape = ⟨.returns, transportClose cfg s, tape, ["tclose"]⟩ := by
+  simp [execStmt0, tcloseFails, ht]
+
+theorem tclose_stmt1 (ht : cfg.tcloseRaises = false) (s : St) (tape : List Ev) :
+    execStmt1 cfg .transportClose s tape = ⟨.returns, transportClose cfg s, tape, ["tclose"]⟩ := by
+  simp [execStmt1, execStmt0, tcloseFails, ht]
+
 /-- `self.transport.close(); self.channel.close()` as a statement list (either executor) -/
 theorem closeBoth_list (f : Stmt → St → List Ev → R)
     (ht : ∀ s tape, f .transportClose s tape = ⟨.returns, transportClose cfg s, tape, ["tclose"]⟩)
@@ -431,7 +470,28 @@ theorem closeBoth_list (f : Stmt → St → List Ev → R)
   · rw [a3, b3]; simp [ht, hc]
   · rw [ok_iff, a2, b2]; simp
 
-theorem runClose_fixed (hc : cfg.code = codeFixed cfg.stack) (s : St) (tape : List Ev) :
+theorem execList_single (f : Stmt → St → List Ev → R) (st : Stmt) (s : St) (tape : List Ev) :
+    (execList f cfg [⟨.always, st⟩] s tape).st = (f st s tape).st ∧
+    (execList f cfg [⟨.always, st⟩] s tape).out = (f st s tape).out ∧
+    (execList f cfg [⟨.always, st⟩] s tape).tape = (f st s tape).tape := by
+  by_cases hok : (f st s tape).ok = true
+  · obtain ⟨a1, a2, a3, _⟩ := execList_cons_go (cfg := cfg) f ⟨.always, st⟩ [] s tape rfl hok
+    rw [a1, a2, a3]
+    exact ⟨rfl, ((ok_iff _).1 hok).symm, rfl⟩
+  · have hok' : (f st s tape).ok = false := by simpa using hok
+    rw [execList_cons_stop (cfg := cfg) f ⟨.always, st⟩ [] s tape rfl hok']
+    exact ⟨rfl, rfl, rfl⟩
+
+/-- what the middle node of close() must do for everything below: run the hook part, then close
+    transport and channel, passing the hook part's outcome on -/
+def ClosesLikeFinally (cfg : Cfg) (n : Node) : Prop :=
+  ∀ s tape,
+    (execNode (execStmt0 cfg) cfg n s tape).st = channelClose cfg (transportClose cfg (hookPart cfg s tape).st) ∧
+    (execNode (execStmt0 cfg) cfg n s tape).out = (hookPart cfg s tape).out ∧
+    (execNode (execStmt0 cfg) cfg n s tape).tape = (hookPart cfg s tape).tape
+
+theorem runClose_shape (n : Node) (hn : ClosesLikeFinally cfg n)
+    (hc : cfg.code.closeP = [closeHead cfg.stack, n, .simple ⟨.always, .logPost true⟩]) (s : St) (tape : List Ev) :
     (runClose cfg s tape).st = channelClose cfg (transportClose cfg (hookPart cfg s tape).st) ∧
     (runClose cfg s tape).out = (hookPart cfg s tape).out ∧
     (runClose cfg s tape).tape = (hookPart cfg s tape).tape := by
@@ -443,41 +503,61 @@ theorem runClose_fixed (hc : cfg.code = codeFixed cfg.stack) (s : St) (tape : Li
   obtain ⟨n1, n2, n3⟩ := execNode_quiet (cfg := cfg) (execStmt0 cfg) st0 hq0 s tape
   have nok : (execNode (execStmt0 cfg) cfg (.simple ⟨.always, st0⟩) s tape).ok = true := (ok_iff _).2 n3
   unfold runClose
-  rw [hc]
-  simp only [codeFixed, closeFixed, hh0]
+  rw [hc, hh0]
   obtain ⟨p1, p2, p3, _⟩ := execProg_cons_go (cfg := cfg) (execStmt0 cfg) (.simple ⟨.always, st0⟩)
-    [.tryFinally [⟨.hasOnClose, .onClose⟩] [⟨.always, .transportClose⟩, ⟨.always, .channelClose⟩], .simple ⟨.always, .logPost true⟩] s tape nok
+    [n, .simple ⟨.always, .logPost true⟩] s tape nok
   rw [p1, p2, p3, n1, n2]
-  -- the try/finally node
-  obtain ⟨c1, c2, c3⟩ := closeBoth_list (cfg := cfg) (execStmt0 cfg) (fun _ _ => rfl) (fun _ _ => rfl) (hookPart cfg s tape).st (hookPart cfg s tape).tape
-  have hnode : (execNode (execStmt0 cfg) cfg (.tryFinally [⟨.hasOnClose, .onClose⟩] [⟨.always, .transportClose⟩, ⟨.always, .channelClose⟩]) s tape).st
-        = channelClose cfg (transportClose cfg (hookPart cfg s tape).st) ∧
-      (execNode (execStmt0 cfg) cfg (.tryFinally [⟨.hasOnClose, .onClose⟩] [⟨.always, .transportClose⟩, ⟨.always, .channelClose⟩]) s tape).out
-        = (hookPart cfg s tape).out ∧
-      (execNode (execStmt0 cfg) cfg (.tryFinally [⟨.hasOnClose, .onClose⟩] [⟨.always, .transportClose⟩, ⟨.always, .channelClose⟩]) s tape).tape
-        = (hookPart cfg s tape).tape := by
-    unfold execNode
-    simp only
-    unfold hookPart at c1 c2 c3 ⊢
-    rw [c1, c2, c3]
-    simp
-  obtain ⟨d1, d2, d3⟩ := hnode
-  by_cases hok : (execNode (execStmt0 cfg) cfg (.tryFinally [⟨.hasOnClose, .onClose⟩] [⟨.always, .transportClose⟩, ⟨.always, .channelClose⟩]) s tape).ok = true
-  · obtain ⟨q1, q2, q3, _⟩ := execProg_cons_go (cfg := cfg) (execStmt0 cfg) _ [.simple ⟨.always, .logPost true⟩] s tape hok
+  obtain ⟨d1, d2, d3⟩ := hn s tape
+  by_cases hok : (execNode (execStmt0 cfg) cfg n s tape).ok = true
+  · obtain ⟨q1, q2, q3, _⟩ := execProg_cons_go (cfg := cfg) (execStmt0 cfg) n [.simple ⟨.always, .logPost true⟩] s tape hok
     obtain ⟨m1, m2, m3⟩ := execNode_quiet (cfg := cfg) (execStmt0 cfg) (.logPost true) (quiet0_logPost true)
-      (execNode (execStmt0 cfg) cfg (.tryFinally [⟨.hasOnClose, .onClose⟩] [⟨.always, .transportClose⟩, ⟨.always, .channelClose⟩]) s tape).st
-      (execNode (execStmt0 cfg) cfg (.tryFinally [⟨.hasOnClose, .onClose⟩] [⟨.always, .transportClose⟩, ⟨.always, .channelClose⟩]) s tape).tape
+      (execNode (execStmt0 cfg) cfg n s tape).st (execNode (execStmt0 cfg) cfg n s tape).tape
     have mok := (ok_iff _).2 m3
     obtain ⟨r1, r2, r3, _⟩ := execProg_cons_go (cfg := cfg) (execStmt0 cfg) (.simple ⟨.always, .logPost true⟩) [] _ _ mok
     rw [q1, q2, q3, r1, r2, r3]
     simp only [execProg_nil_st, execProg_nil_out, execProg_nil_tape]
     refine ⟨m1.trans d1, ?_, m2.trans d3⟩
     rw [← d2]; exact ((ok_iff _).1 hok).symm
-  · have hok' : (execNode (execStmt0 cfg) cfg (.tryFinally [⟨.hasOnClose, .onClose⟩] [⟨.always, .transportClose⟩, ⟨.always, .channelClose⟩]) s tape).ok = false := by
-      simpa using hok
+  · have hok' : (execNode (execStmt0 cfg) cfg n s tape).ok = false := by simpa using hok
     rw [execProg_cons_stop _ _ _ _ _ hok']
     exact ⟨d1, d2, d3⟩
 
+/-- `try: hook  finally: transport.close(); channel.close()` -/
+theorem closesLike_flat (ht : cfg.tcloseRaises = false) :
+    ClosesLikeFinally cfg (.tryFinally [⟨.hasOnClose, .onClose⟩] [⟨.always, .transportClose⟩, ⟨.always, .channelClose⟩]) := by
+  intro s tape
+  obtain ⟨c1, c2, c3⟩ := closeBoth_list (cfg := cfg) (execStmt0 cfg) (tclose_stmt0 ht) (fun _ _ => rfl) (hookPart cfg s tape).st (hookPart cfg s tape).tape
+  unfold execNode
+  simp only
+  unfold hookPart at c1 c2 c3 ⊢
+  rw [c1, c2, c3]
+  simp
+
+/-- `try: hook  finally: (try: transport.close()  finally: channel.close())` — the same thing as
+    long as transport.close() does not raise -/
+theorem closesLike_nested (ht : cfg.tcloseRaises = false) :
+    ClosesLikeFinally cfg (.tryFinallyN [⟨.hasOnClose, .onClose⟩] [⟨.always, .transportClose⟩] [⟨.always, .channelClose⟩]) := by
+  intro s tape
+  obtain ⟨a1, a2, a3⟩ := execList_single (cfg := cfg) (execStmt0 cfg) .transportClose (hookPart cfg s tape).st (hookPart cfg s tape).tape
+  rw [tclose_stmt0 ht] at a1 a2 a3
+  obtain ⟨b1, b2, b3⟩ := execList_single (cfg := cfg) (execStmt0 cfg) .channelClose (transportClose cfg (hookPart cfg s tape).st) (hookPart cfg s tape).tape
+  have hcc : ∀ y tp, execStmt0 cfg .channelClose y tp = ⟨.returns, channelClose cfg y, tp, ["cclose"]⟩ := fun _ _ => rfl
+  rw [hcc] at b1 b2 b3
+  unfold execNode finallyPair
+  simp only
+  unfold hookPart at a1 a2 a3 b1 b2 b3 ⊢
+  simp only at a1 a2 a3 b1 b2 b3
+  rw [a1, a3, b1, b3]
+  simp [R.ok, a2, b2]
+
+theorem runClose_fixed (hc : cfg.code = codeFixed cfg.stack ∨ cfg.code = codeFixed2 cfg.stack) (ht : cfg.tcloseRaises = false)
+    (s : St) (tape : List Ev) :
+    (runClose cfg s tape).st = channelClose cfg (transportClose cfg (hookPart cfg s tape).st) ∧
+    (runClose cfg s tape).out = (hookPart cfg s tape).out ∧
+    (runClose cfg s tape).tape = (hookPart cfg s tape).tape := by
+  rcases hc with hc | hc
+  · exact runClose_shape _ (closesLike_flat ht) (by rw [hc]; rfl) s tape
+  · exact runClose_shape _ (closesLike_nested ht) (by rw [hc]; rfl) s tape
 
 
 theorem closeBoth_released (hf : cfg.facts = factsFixed) (s : St) (hk : K cfg s) :
@@ -519,16 +599,16 @@ theorem hookPart_pres (hp : Tol cfg P) (s : St) (tape : List Ev) (h : P s) : P (
 
 /-- **close() of the repaired code releases everything, whatever the hook and the device do** -/
 theorem close_released (hfix : FixedCfg cfg) (s : St) (tape : List Ev) (hk : K cfg s) : Released (runClose cfg s tape).st := by
-  rw [(runClose_fixed hfix.1 s tape).1]
-  exact closeBoth_released hfix.2 _ (hookPart_pres (tol_K hfix.2) s tape hk)
+  rw [(runClose_fixed hfix.1 hfix.2.2 s tape).1]
+  exact closeBoth_released hfix.2.1 _ (hookPart_pres (tol_K hfix.2.1) s tape hk)
 
 theorem close_K (hfix : FixedCfg cfg) (s : St) (tape : List Ev) (hk : K cfg s) : K cfg (runClose cfg s tape).st := by
-  rw [(runClose_fixed hfix.1 s tape).1]
-  have := hookPart_pres (tol_K hfix.2) s tape hk
-  exact (tol_K hfix.2).cclose _ ((tol_K hfix.2).tclose _ this)
+  rw [(runClose_fixed hfix.1 hfix.2.2 s tape).1]
+  have := hookPart_pres (tol_K hfix.2.1) s tape hk
+  exact (tol_K hfix.2.1).cclose _ ((tol_K hfix.2.1).tclose _ this)
 
 theorem close_need (hfix : FixedCfg cfg) (s : St) (tape : List Ev) : (runClose cfg s tape).st.needClose = s.needClose := by
-  rw [(runClose_fixed hfix.1 s tape).1]
+  rw [(runClose_fixed hfix.1 hfix.2.2 s tape).1]
   have ht : Tol cfg (fun x => x.needClose = s.needClose) := tol_need s.needClose
   have := hookPart_pres ht s tape rfl
   exact ht.cclose _ (ht.tclose _ this)
@@ -581,18 +661,6 @@ theorem closeBoth_id (hf : cfg.facts = factsFixed) (s : St) (hr : Released s) :
 
 
 /-! ### more unfolding: single always-guarded statements -/
-
-theorem execList_single (f : Stmt → St → List Ev → R) (st : Stmt) (s : St) (tape : List Ev) :
-    (execList f cfg [⟨.always, st⟩] s tape).st = (f st s tape).st ∧
-    (execList f cfg [⟨.always, st⟩] s tape).out = (f st s tape).out ∧
-    (execList f cfg [⟨.always, st⟩] s tape).tape = (f st s tape).tape := by
-  by_cases hok : (f st s tape).ok = true
-  · obtain ⟨a1, a2, a3, _⟩ := execList_cons_go (cfg := cfg) f ⟨.always, st⟩ [] s tape rfl hok
-    rw [a1, a2, a3]
-    exact ⟨rfl, ((ok_iff _).1 hok).symm, rfl⟩
-  · have hok' : (f st s tape).ok = false := by simpa using hok
-    rw [execList_cons_stop (cfg := cfg) f ⟨.always, st⟩ [] s tape rfl hok']
-    exact ⟨rfl, rfl, rfl⟩
 
 theorem execProg_cons_always (f : Stmt → St → List Ev → R) (st : Stmt) (rest : Prog) (s : St) (tape : List Ev) :
     (execProg f cfg (.simple ⟨.always, st⟩ :: rest) s tape).st
@@ -669,7 +737,7 @@ theorem runOpen_orphan (hc : cfg.code.openP = openOf cfg.stack) (s : St) (tape :
 
 /-! ### __enter__ / __exit__ -/
 
-theorem runEnter_unfold (hc : cfg.code.enterP = enterP) (s : St) (tape : List Ev) :
+theorem runEnter_unfold_flat (hc : cfg.code.enterP = enterP) (ht : cfg.tcloseRaises = false) (s : St) (tape : List Ev) :
     (runEnter cfg s tape).st = (if (runOpen cfg s tape).ok then (runOpen cfg s tape).st
                                 else channelClose cfg (transportClose cfg (runOpen cfg s tape).st)) ∧
     (runEnter cfg s tape).out = (if (runOpen cfg s tape).ok then .returns else .raises .connError) ∧
@@ -698,7 +766,7 @@ theorem runEnter_unfold (hc : cfg.code.enterP = enterP) (s : St) (tape : List Ev
       (execList (execStmt1 cfg) cfg [⟨.always, .callOpen⟩] s tape).tape
     obtain ⟨c1, c2, c3, _⟩ := execList_cons_go (cfg := cfg) (execStmt1 cfg) ⟨.always, .logCritical⟩
       [⟨.always, .transportClose⟩, ⟨.always, .channelClose⟩] _ _ rfl ((ok_iff _).2 hq.2.2)
-    obtain ⟨d1, d2, d3⟩ := closeBoth_list (cfg := cfg) (execStmt1 cfg) (fun _ _ => rfl) (fun _ _ => rfl)
+    obtain ⟨d1, d2, d3⟩ := closeBoth_list (cfg := cfg) (execStmt1 cfg) (tclose_stmt1 ht) (fun _ _ => rfl)
       (execStmt1 cfg .logCritical (execList (execStmt1 cfg) cfg [⟨.always, .callOpen⟩] s tape).st
         (execList (execStmt1 cfg) cfg [⟨.always, .callOpen⟩] s tape).tape).st
       (execStmt1 cfg .logCritical (execList (execStmt1 cfg) cfg [⟨.always, .callOpen⟩] s tape).st
@@ -711,6 +779,57 @@ theorem runEnter_unfold (hc : cfg.code.enterP = enterP) (s : St) (tape : List Ev
     refine ⟨?_, trivial, ?_⟩
     · rw [c1, d1, hq.1, b1]
     · rw [c3, d2, hq.2.1, b3]
+
+theorem runEnter_unfold_nested (hc : cfg.code.enterP = enterP2) (ht : cfg.tcloseRaises = false) (s : St) (tape : List Ev) :
+    (runEnter cfg s tape).st = (if (runOpen cfg s tape).ok then (runOpen cfg s tape).st
+                                else channelClose cfg (transportClose cfg (runOpen cfg s tape).st)) ∧
+    (runEnter cfg s tape).out = (if (runOpen cfg s tape).ok then .returns else .raises .connError) ∧
+    (runEnter cfg s tape).tape = (runOpen cfg s tape).tape := by
+  unfold runEnter
+  rw [hc]
+  unfold enterP2
+  obtain ⟨p1, p2, p3⟩ := execProg_single (cfg := cfg) (execStmt1 cfg)
+    (.tryExceptRaiseN [⟨.always, .callOpen⟩] [⟨.always, .logCritical⟩] [⟨.always, .transportClose⟩] [⟨.always, .channelClose⟩]) s tape
+  rw [p1, p2, p3]
+  obtain ⟨b1, b2, b3⟩ := execList_single (cfg := cfg) (execStmt1 cfg) .callOpen s tape
+  have hcall : execStmt1 cfg .callOpen s tape = runOpen cfg s tape := rfl
+  rw [hcall] at b1 b2 b3
+  unfold execNode
+  simp only
+  by_cases hok : (runOpen cfg s tape).ok = true
+  · have hbok : (execList (execStmt1 cfg) cfg [⟨.always, .callOpen⟩] s tape).ok = true := by
+      rw [ok_iff, b2]; exact (ok_iff _).1 hok
+    simp only [hbok, hok, if_true]
+    exact ⟨b1, by rw [b2]; exact (ok_iff _).1 hok, b3⟩
+  · have hok' : (runOpen cfg s tape).ok = false := by simpa using hok
+    have hbok : (execList (execStmt1 cfg) cfg [⟨.always, .callOpen⟩] s tape).ok = false := by
+      rw [ok_false_iff, b2]; exact (ok_false_iff _).1 hok'
+    have hlc : ∀ y tp, execStmt1 cfg .logCritical y tp = ⟨.returns, y, tp, ["crit"]⟩ := fun _ _ => rfl
+    have hcc : ∀ y tp, execStmt1 cfg .channelClose y tp = ⟨.returns, channelClose cfg y, tp, ["cclose"]⟩ := fun _ _ => rfl
+    obtain ⟨c1, c2, c3⟩ := execList_single (cfg := cfg) (execStmt1 cfg) .logCritical (runOpen cfg s tape).st (runOpen cfg s tape).tape
+    rw [hlc] at c1 c2 c3
+    simp only at c1 c2 c3
+    have hc0ok : (execList (execStmt1 cfg) cfg [⟨.always, .logCritical⟩] (runOpen cfg s tape).st (runOpen cfg s tape).tape).ok = true :=
+      (ok_iff _).2 c2
+    obtain ⟨d1, d2, d3⟩ := execList_single (cfg := cfg) (execStmt1 cfg) .transportClose (runOpen cfg s tape).st (runOpen cfg s tape).tape
+    rw [tclose_stmt1 ht] at d1 d2 d3
+    simp only at d1 d2 d3
+    obtain ⟨e1, e2, e3⟩ := execList_single (cfg := cfg) (execStmt1 cfg) .channelClose
+      (transportClose cfg (runOpen cfg s tape).st) (runOpen cfg s tape).tape
+    rw [hcc] at e1 e2 e3
+    simp only at e1 e2 e3
+    simp only [hbok, hok', Bool.false_eq_true, if_false, b1, b3]
+    simp only [hc0ok, Bool.not_true, Bool.false_eq_true, if_false, finallyPair, c1, c3, d1, d3, e1, e3]
+    simp [R.ok, d2, e2]
+
+theorem runEnter_unfold (hc : cfg.code.enterP = enterP ∨ cfg.code.enterP = enterP2) (ht : cfg.tcloseRaises = false) (s : St) (tape : List Ev) :
+    (runEnter cfg s tape).st = (if (runOpen cfg s tape).ok then (runOpen cfg s tape).st
+                                else channelClose cfg (transportClose cfg (runOpen cfg s tape).st)) ∧
+    (runEnter cfg s tape).out = (if (runOpen cfg s tape).ok then .returns else .raises .connError) ∧
+    (runEnter cfg s tape).tape = (runOpen cfg s tape).tape := by
+  rcases hc with hc | hc
+  · exact runEnter_unfold_flat hc ht s tape
+  · exact runEnter_unfold_nested hc ht s tape
 
 theorem runExit_unfold (hc : cfg.code.exitP = exitP) (s : St) (tape : List Ev) :
     (runExit cfg s tape).st = (runClose cfg s tape).st ∧ (runExit cfg s tape).out = (runClose cfg s tape).out ∧
@@ -734,9 +853,11 @@ theorem K_need {s : St} (b : Bool) (h : K cfg s) : K cfg { s with needClose := b
 
 theorem Released_need {s : St} (b : Bool) (h : Released s) : Released { s with needClose := b } := h
 
-theorem code_fixed_parts (hc : cfg.code = codeFixed cfg.stack) :
-    cfg.code.openP = openOf cfg.stack ∧ cfg.code.enterP = enterP ∧ cfg.code.exitP = exitP := by
-  rw [hc]; exact ⟨rfl, rfl, rfl⟩
+theorem code_fixed_parts (hc : cfg.code = codeFixed cfg.stack ∨ cfg.code = codeFixed2 cfg.stack) :
+    cfg.code.openP = openOf cfg.stack ∧ (cfg.code.enterP = enterP ∨ cfg.code.enterP = enterP2) ∧ cfg.code.exitP = exitP := by
+  rcases hc with hc | hc <;> rw [hc]
+  · exact ⟨rfl, Or.inl rfl, rfl⟩
+  · exact ⟨rfl, Or.inr rfl, rfl⟩
 
 theorem inv_fresh : Inv cfg {} :=
   ⟨⟨⟨by simp, by simp, by simp, rfl, fun _ => rfl⟩, rfl⟩, fun _ => ⟨rfl, rfl, rfl, rfl, rfl, rfl⟩⟩
@@ -746,7 +867,7 @@ theorem inv_operate (hfix : FixedCfg cfg) (s : St) (tape : List Ev) (h : Inv cfg
   unfold opOperate
   have hn : (interact cfg true "operate" s tape).st.needClose = s.needClose :=
     interact_pres (P := fun x => x.needClose = s.needClose) (tol_need s.needClose) _ _ _ _ rfl
-  refine ⟨⟨interact_pres (tol_K hfix.2) _ _ _ _ h.1, ?_⟩, hn⟩
+  refine ⟨⟨interact_pres (tol_K hfix.2.1) _ _ _ _ h.1, ?_⟩, hn⟩
   intro hnc
   rw [hn] at hnc
   have hr := h.2 hnc
@@ -769,7 +890,7 @@ theorem inv_open (hfix : FixedCfg cfg) (s : St) (tape : List Ev) (h : Inv cfg s)
   have horph : (runOpen cfg { s with needClose := true } tape).st.orphan = false := by
     have := runOpen_orphan (code_fixed_parts hfix.1).1 { s with needClose := true } tape hr.2.2.1
     rw [this]; exact hk0.2
-  refine ⟨⟨⟨runOpen_J hfix.2 _ _ hk0.1, horph⟩, ?_⟩, hneed⟩
+  refine ⟨⟨⟨runOpen_J hfix.2.1 _ _ hk0.1, horph⟩, ?_⟩, hneed⟩
   intro hnc; rw [hneed] at hnc; exact absurd hnc (by simp)
 
 theorem inv_body (hfix : FixedCfg cfg) : ∀ (body : List BodyOp) (s : St) (tape : List Ev) (need : Bool),
@@ -808,7 +929,7 @@ theorem inv_with (hfix : FixedCfg cfg) (s : St) (tape : List Ev) (body : List Bo
   obtain ⟨hco, hce, hcx⟩ := code_fixed_parts hfix.1
   obtain ⟨ho1, ho2⟩ := inv_open hfix s tape h hn
   unfold opOpen at ho1 ho2
-  obtain ⟨e1, e2, _⟩ := runEnter_unfold hce { s with needClose := true } tape
+  obtain ⟨e1, e2, _⟩ := runEnter_unfold hce hfix.2.2 { s with needClose := true } tape
   unfold opWith
   simp only
   by_cases hok : (runOpen cfg { s with needClose := true } tape).ok = true
@@ -836,8 +957,8 @@ theorem inv_with (hfix : FixedCfg cfg) (s : St) (tape : List Ev) (body : List Bo
         = channelClose cfg (transportClose cfg (runOpen cfg { s with needClose := true } tape).st) := by
       rw [e1]; simp [hok']
     simp only [hek, Bool.not_false, if_true]
-    have hr := closeBoth_released hfix.2 _ ho1.1
-    have hk := (tol_K hfix.2).cclose _ ((tol_K hfix.2).tclose _ ho1.1)
+    have hr := closeBoth_released hfix.2.1 _ ho1.1
+    have hk := (tol_K hfix.2.1).cclose _ ((tol_K hfix.2.1).tclose _ ho1.1)
     rw [← hst] at hr hk
     exact ⟨⟨K_need false hk, fun _ => Released_need false hr⟩, Released_need false hr, trivial⟩
 
@@ -998,14 +1119,14 @@ theorem with_failed_open (hfix : FixedCfg cfg) (s : St) (tape : List Ev) (body :
   obtain ⟨_, hce, _⟩ := code_fixed_parts hfix.1
   obtain ⟨ho1, _⟩ := inv_open hfix s tape h hn
   unfold opOpen at ho1
-  obtain ⟨e1, e2, e3⟩ := runEnter_unfold hce { s with needClose := true } tape
+  obtain ⟨e1, e2, e3⟩ := runEnter_unfold hce hfix.2.2 { s with needClose := true } tape
   have hok' : (runOpen cfg { s with needClose := true } tape).ok = false := (ok_false_iff _).2 hfail
   have hek : (runEnter cfg { s with needClose := true } tape).ok = false := by
     rw [ok_false_iff, e2]; simp [hok']
   have hst : (runEnter cfg { s with needClose := true } tape).st
       = channelClose cfg (transportClose cfg (runOpen cfg { s with needClose := true } tape).st) := by
     rw [e1]; simp [hok']
-  have hr := closeBoth_released hfix.2 _ ho1.1
+  have hr := closeBoth_released hfix.2.1 _ ho1.1
   rw [← hst] at hr
   unfold opWith
   simp only [hek, Bool.not_false, if_true]
@@ -1016,17 +1137,17 @@ theorem with_failed_open (hfix : FixedCfg cfg) (s : St) (tape : List Ev) (body :
 
 theorem second_close (hfix : FixedCfg cfg) (c : St) (tape : List Ev) (hr : Released c) (hn : c.needClose = false) :
     (opClose cfg c tape).st = c ∧ (opClose cfg c tape).tape = tape ∧ (opClose cfg c tape).out = closedHookOutcome cfg.onClose := by
-  obtain ⟨r1, r2, r3⟩ := runClose_fixed hfix.1 c tape
+  obtain ⟨r1, r2, r3⟩ := runClose_fixed hfix.1 hfix.2.2 c tape
   obtain ⟨h1, h2, h3⟩ := hookPart_closed (cfg := cfg) c tape hr.1
   unfold opClose
   simp only
   refine ⟨?_, by rw [r3, h2], by rw [r2, h3]⟩
-  rw [r1, h1, closeBoth_id hfix.2 c hr]
+  rw [r1, h1, closeBoth_id hfix.2.1 c hr]
   cases c; simp_all
 
 /-! ### close() of the pre-fix code, when the hook does not raise -/
 
-theorem runClose_orig_ok (hc : cfg.code.closeP = closeOrig cfg.stack) (s : St) (tape : List Ev)
+theorem runClose_orig_ok (hc : cfg.code.closeP = closeOrig cfg.stack) (ht : cfg.tcloseRaises = false) (s : St) (tape : List Ev)
     (hhook : (hookPart cfg s tape).out = .returns) :
     (runClose cfg s tape).st = channelClose cfg (transportClose cfg (hookPart cfg s tape).st) := by
   have hhead : ∃ st, Quiet (execStmt0 cfg) st ∧ closeHead cfg.stack = .simple ⟨.always, st⟩ := by
@@ -1052,7 +1173,7 @@ theorem runClose_orig_ok (hc : cfg.code.closeP = closeOrig cfg.stack) (s : St) (
   obtain ⟨c1, _, _⟩ := execProg_cons_always (cfg := cfg) (execStmt0 cfg) .transportClose
     [.simple ⟨.always, .channelClose⟩, .simple ⟨.always, .logPost true⟩] (hookPart cfg s tape).st (hookPart cfg s tape).tape
   rw [c1]
-  have htc : ∀ y tp, execStmt0 cfg .transportClose y tp = ⟨.returns, transportClose cfg y, tp, ["tclose"]⟩ := fun _ _ => rfl
+  have htc : ∀ y tp, execStmt0 cfg .transportClose y tp = ⟨.returns, transportClose cfg y, tp, ["tclose"]⟩ := tclose_stmt0 ht
   have hcc : ∀ y tp, execStmt0 cfg .channelClose y tp = ⟨.returns, channelClose cfg y, tp, ["cclose"]⟩ := fun _ _ => rfl
   have hlp : ∀ y tp, execStmt0 cfg (.logPost true) y tp = ⟨.returns, y, tp, ["post:c"]⟩ := fun _ _ => rfl
   obtain ⟨d1, _, _⟩ := execProg_cons_always (cfg := cfg) (execStmt0 cfg) .channelClose
